@@ -543,7 +543,8 @@ def ArityOk (fo : Option FnObj) (n : Nat) : Bool :=
 theorem self_call_tail {isFn : Nat → Bool} {k : Nat} {f : String} {kn : List (String × Nat)}
     {args : List Expr} {gs : GS} {r} (h : compile isFn ⟨true, k, f, kn⟩ (.call (.sym f) args) gs = .ok r)
     (harity : ArityOk ((kn.lookup f).bind fun t => gs.fns[t]?) args.length = true) :
-    ∃ argcode, r.1.1 = argcode ++ [Instr.prepareCall f args.length] ++ List.replicate (k + 1) Instr.removeScope ++ [Instr.goto 0] := by
+    ∃ argcode, r.1.1 = [Instr.tailGuard f (argcode.length + k + 4)] ++ argcode ++ [Instr.prepareCall f args.length] ++
+      List.replicate (k + 1) Instr.removeScope ++ [Instr.goto 0, Instr.callExpr (.sym f) args] := by
   simp only [ArityOk] at harity
   simp only [compile, Bool.true_and, beq_self_eq_true, ↓reduceIte, bind_ok, get_ok] at h
   obtain ⟨g, gs1, heq, h⟩ := h
